@@ -26,6 +26,7 @@ def main(tier, seed, replay):
         k.validate_profile("events", 80, extra_monitors=SESS_MON, extra_fields=SESS_FIELDS)
         k.replay_behaviours("TLC_walks_sess", mc_consts(kinds=("spawn", "despawn", "mutate", "insert", "remove", "disconnect", "stop"), ents=("e1", "e2"), clients=("c1", "c2"), recon=3, ops=8, ticks=8, idle=3, cframes=10), 150, depth=100, extra_monitors=SESS_MON, extra_fields=SESS_FIELDS)
         k.replay_behaviours("EXH_Sess", mc_consts(kinds=("spawn", "remove", "despawn", "stop", "disconnect"), ops=2, ticks=2, idle=1, recon=1, cframes=0), 0, invariants=inv, extra_monitors=SESS_MON, extra_fields=SESS_FIELDS)
+        k.buffers(300)
     else:
         k.model_check("MC_Sess", mc_consts(kinds=("spawn", "mutate", "insert", "disconnect"), ops=3, ticks=3, recon=1, cframes=4, idle=1), inv, timeout=3000)
         k.model_check("MC_Sess2", mc_consts(kinds=("spawn", "mutate", "disconnect"), ops=2, ticks=3, recon=2, cframes=5), inv, timeout=3000)
@@ -36,6 +37,7 @@ def main(tier, seed, replay):
         k.validate_profile("events", 2000, extra_monitors=SESS_MON, extra_fields=SESS_FIELDS)
         k.replay_behaviours("TLC_walks_sess", mc_consts(kinds=("spawn", "despawn", "mutate", "insert", "remove", "disconnect", "stop"), ents=("e1", "e2"), clients=("c1", "c2"), recon=3, ops=8, ticks=8, idle=3, cframes=10), 2000, depth=100, extra_monitors=SESS_MON, extra_fields=SESS_FIELDS)
         k.replay_behaviours("EXH_Sess", mc_consts(kinds=("spawn", "remove", "despawn", "stop", "disconnect"), ops=3, ticks=2, idle=2, recon=1, cframes=1), 0, invariants=inv, extra_monitors=SESS_MON, extra_fields=SESS_FIELDS, timeout=3000)
+        k.buffers(20000)
     k.selftest(tr)
     return k.finish(assumptions=[
         "a lost connection is both ends dropping at once with everything in flight lost; the game despawns the replicated entities of the ended session (the harness does); the client runs at least one frame before it reconnects; a restarted server runs one frame before it accepts clients; the running flag changes at most once per server frame (replicon detects a stop by comparing with the previous frame)",
